@@ -14,6 +14,7 @@ import (
 	"os"
 	"strings"
 	"sync"
+	"time"
 )
 
 func concOps(rng *rand.Rand, n int) []string {
@@ -77,8 +78,16 @@ func concOps(rng *rand.Rand, n int) []string {
 func runConc(h *H, seed int64, goroutines, perG int) int {
 	lists := make([][]string, goroutines)
 	for i := range lists {
-		lists[i] = concOps(rand.New(rand.NewSource(seed*1000+int64(i))), perG)
+		rng := rand.New(rand.NewSource(seed*1000 + int64(i)))
+		lists[i] = concOps(rng, perG)
+		// every goroutine begins with an operation that needs the lazily decoded base-point table, and the
+		// goroutines arrive staggered over the time the first one spends decoding it (the step varies with the
+		// seed: 20µs … 2.5ms), so that late arrivals meet the table while it is being built
+		b := make([]byte, 32)
+		rng.Read(b)
+		lists[i][0] = "sbmul " + hx(b)
 	}
+	step := time.Duration(20<<uint(seed%8)) * time.Microsecond
 	results := make([][]string, goroutines)
 	var start, done sync.WaitGroup
 	start.Add(1)
@@ -88,14 +97,43 @@ func runConc(h *H, seed int64, goroutines, perG int) int {
 		go func(i int) {
 			defer done.Done()
 			start.Wait()
+			if i > 0 {
+				for t0 := time.Now(); time.Since(t0) < time.Duration(i)*step; {
+				}
+			}
 			for j, op := range lists[i] {
 				results[i][j] = h.runOp(op)
 			}
 		}(i)
 	}
+	// probers: one table-dependent operation each, arriving every 4ms (plus a seed-dependent offset) during the
+	// first quarter of a second - the time the -race build needs to decode the table the first time - so that
+	// some of them arrive while the first goroutine is still inside the initialiser
+	const probers = 64
+	probeOps := make([]string, probers)
+	probeRes := make([]string, probers)
+	prng := rand.New(rand.NewSource(seed*7919 + 13))
+	for i := range probeOps {
+		b := make([]byte, 32)
+		prng.Read(b)
+		probeOps[i] = "sbmul " + hx(b)
+		done.Add(1)
+		go func(i int) {
+			defer done.Done()
+			start.Wait()
+			time.Sleep(time.Duration(i)*4*time.Millisecond + time.Duration(seed%4)*time.Millisecond)
+			probeRes[i] = h.runOp(probeOps[i])
+		}(i)
+	}
 	start.Done()
 	done.Wait()
 	bad := 0
+	for i, op := range probeOps {
+		if alone := h.runOp(op); alone != probeRes[i] {
+			bad++
+			fmt.Printf("CONC-MISMATCH prober=%d (arrived %dms after the start) op=%q concurrent=%q alone=%q\n", i, i*4, op, probeRes[i], alone)
+		}
+	}
 	for i := range lists {
 		for j, op := range lists[i] {
 			alone := h.runOp(op)
@@ -105,9 +143,9 @@ func runConc(h *H, seed int64, goroutines, perG int) int {
 			}
 		}
 	}
-	fmt.Printf("conc: goroutines=%d ops=%d mismatches=%d\n", goroutines, goroutines*perG, bad)
+	fmt.Printf("conc: goroutines=%d+%d ops=%d mismatches=%d\n", goroutines, probers, goroutines*perG+probers, bad)
 	if bad > 0 {
 		os.Exit(3)
 	}
-	return goroutines * perG
+	return goroutines*perG + probers
 }
